@@ -10,9 +10,10 @@ na_reasons = {}
 p = os.path.join(ROOT, "tools", "not_applicable.json")
 if os.path.exists(p):
     na_reasons = json.load(open(p))
+claimed = set(json.load(open(os.path.join(ROOT, "tools", "claimed.json"))))
 checks, na, engines = [], [], {}
 for pid in props:
-    m = META.get(pid)
+    m = META.get(pid) if pid in claimed else None
     if not m:
         na.append({"property_id": pid, "reason": na_reasons.get(pid, "not claimed: no sound check for this property has been completed yet (model/proof/correspondence under construction)")})
         continue
